@@ -855,7 +855,7 @@ func c10Run(c *Ctx, l, r *c10ADoc, shape, via string, minSim float64) {
 		}
 	}
 	req2.WriteString(" " + encForest(abstractNodes(ld.Nodes())) + " " + encForest(abstractNodes(rd.Nodes())))
-	c.Tie(req2.String(), "ok legal="+bit(re.String() == text)+" "+encForest(abstractNodes(out.Nodes())))
+	c.Tie(req2.String(), "ok legal="+bit(re.String() == text)+" inputs=1 "+encForest(abstractNodes(out.Nodes())))
 
 	switch {
 	case len(l.Indis)+len(r.Indis) == 0:
